@@ -222,4 +222,38 @@ theorem lower_style_idempotent (sep : Nat) (hsep : isAlnum sep = false) (s : Lis
   rw [words_joinWith sep hsep _ (lowered_words s)]
   rw [map_id_of lowerWord _ (fun w hw => lowerWord_id w (fun c hc => (((lowered_words s) w hw).2 c hc).2))]
 
+theorem joinWith_nil : ∀ ws : List (List Nat), joinWith [] ws = ws.flatten
+  | [] => rfl
+  | [w] => by simp [joinWith]
+  | w :: w2 :: ws => by simp [joinWith, joinWith_nil (w2 :: ws)]
+
+theorem toLower_toUpper (c : Nat) : toLower (toUpper c) = toLower c := by
+  unfold toLower toUpper
+  by_cases hl : isLower c = true
+  · have h1 := (lower_iff c).mp hl
+    have hu : isUpper (c - 32) = true := by rw [upper_iff]; omega
+    have hu2 : isUpper c = false := by
+      cases h : isUpper c with
+      | false => rfl
+      | true => have := (upper_iff c).mp h; omega
+    simp only [hl, if_true, hu, hu2, Bool.false_eq_true, if_false]
+    omega
+  · simp [hl]
+
+theorem toLower_toLower (c : Nat) : toLower (toLower c) = toLower c := by
+  unfold toLower
+  by_cases hu : isUpper c = true
+  · have h1 := (upper_iff c).mp hu
+    have : isUpper (c + 32) = false := by
+      cases h : isUpper (c + 32) with
+      | false => rfl
+      | true => have := (upper_iff _).mp h; omega
+    simp [hu, this]
+  · simp [hu]
+
+theorem capWord_lower (w : List Nat) : (capWord w).map toLower = w.map toLower := by
+  cases w with
+  | nil => rfl
+  | cons c cs => simp [capWord, toLower_toUpper, toLower_toLower]
+
 end Just.Case
